@@ -637,17 +637,19 @@ def solve(assumptions, goal, timeout_ms=10000, extra_axioms=(), want_model=True,
         f = float(scale)
         use_cvc5 = use_cvc5 and f >= 0.25
     stages = [(False, int(4e6 * f)), (True, int(1.5e7 * f)), (False, int(5e7 * f)), (True, int(5e7 * f))]
-    wall_ms = int(max(900000, 8 * timeout_ms))
+    # wall-clock safety net per stage (generous: discharged obligations use a small fraction of their resource
+    # limit); without it an exhausted stage can take very long because rlimit units are not proportional to time
+    walls = [int(60000 * f), int(120000 * f), int(240000 * f), int(240000 * f)]
     total = 0.0
     cand = None
     reason = None
     last = None
-    for (mbqi, rl) in stages:
+    for si, (mbqi, rl) in enumerate(stages):
         def mk_rl(mbqi=mbqi, rl=rl):
             sv = mk(mbqi)
             sv.set('rlimit', rl)
             return sv
-        r, sv, dt = check_trusted(mk_rl, wall_ms)
+        r, sv, dt = check_trusted(mk_rl, walls[si])
         total += dt
         STATS['z3_queries'] += 1
         STATS['z3_s'] += dt
